@@ -7,12 +7,14 @@
    interpretation of every constructor branch and getter; fail-closed).  The vocabulary and the
    reference definitions (cart, mesh_flat, in_stratum, requirement_of) are in model/AtomicGen.v.
 
-   FULL-STRENGTH statements that do NOT hold on the current tree (recorded findings):
-     (F1)  forall e, In e table -> e_getter e = GetLambda /\ ...            [table_total]
-           refuted by Generator2D(method='chebyshev2-noisy'): findings/F_C07_getter.v
-     (F8)  forall admissible draws, -1 <= z <= 1 for theta = acos z         [sph_theta]
-           refuted by a = b = 0: findings/F_C07_theta.v
-   The theorems below carry the restricting hypothesis and are named `_partial`. *)
+   History: findings F1 (Generator2D chebyshev2-noisy getter), F8 (spherical theta NaN for
+   a, b ~ 0) and F12 (GeneratorND exp-spaced noisy, negative std) were repaired in /repo by the
+   commits f030d60, 75057c3, 3e7655e; `table_total` and `sph_theta` are now proved at full
+   strength on the regenerated model (no excluded entry, no hypothesis on the acos argument).
+   The residual 0/0 at a = b = c = 0 was repaired by f2992d2 (denom = clamp(a+b+c, min=tiny)):
+   the spherical angle theorems hold for EVERY draw; the guarded denominator is the leaf v_denom
+   with the generated definition e_defs = [(v_denom, a+b+c, tiny)], i.e. the hypothesis
+   venv v_denom = Rmax (a+b+c) tiny, and tiny > 0 (torch.finfo(dtype).tiny). *)
 From Coq Require Import Reals List String Bool Arith Permutation.
 From ND.lib Require Import Expr.
 From ND.model Require Import AtomicGen.
@@ -21,17 +23,17 @@ From ND.proofs Require Import C07_table C07_nodes C07_grid C07_lhs C07_sph.
 Import ListNotations.
 Open Scope R_scope.
 
-(* ---- every accepted method of every class (except the F1 entry) has a callable getter that
-   returns dim tensors, each of length size and requiring grad *)
-Theorem C07_table_total_partial : forall e, In e table -> is_F1 e = false ->
+(* ---- every accepted method of every class has a callable getter that returns dim tensors,
+   each of length size and requiring grad *)
+Theorem C07_table_total : forall e, In e table ->
   e_getter e = GetLambda /\ List.length (e_tensors e) = dim (e_cls e)
   /\ forall t, In t (e_tensors e) -> t_len_ok t = true /\ t_rg t = true.
-Proof. exact table_total_partial. Qed.
+Proof. exact table_total. Qed.
 
 (* ---- deterministic methods: no RNG call at all, stored tensors; noisy methods and 1-D
    uniform: an RNG draw inside get_examples() reaches every returned tensor; every accepted
    method string is classified by the property (meets e = false for an unknown string) *)
-Theorem C07_static_vs_fresh : forall e, In e table -> is_F1 e = false -> meets e = true.
+Theorem C07_static_vs_fresh : forall e, In e table -> meets e = true.
 Proof. exact static_vs_fresh. Qed.
 
 Theorem C07_static_methods : forall e, meets e = true ->
@@ -71,7 +73,7 @@ Qed.
 
 (* ---- grid methods: 2-D / 3-D / N-D classes use meshgrid(indexing='ij') + flatten with the
    arguments in axis order, and that is the row-major tensor product of the 1-D node lists *)
-Theorem C07_grid_table : forall e, In e table -> is_F1 e = false -> grid_ok e = true.
+Theorem C07_grid_table : forall e, In e table -> grid_ok e = true.
 Proof. exact grid_table. Qed.
 
 Theorem C07_grid_is_product : forall (axes : list (list R)) (k : nat), (k < List.length axes)%nat ->
@@ -111,8 +113,8 @@ Proof. exact lhs_out_in_domain. Qed.
 
 (* ---- spherical *)
 Theorem C07_sph_structure :
-  map t_wrap (e_tensors S2.entry) = [WNone; WAcos; WPhi S2.aux_2_0 S2.aux_2_1]
-  /\ map t_wrap (e_tensors S1.entry) = [WNone; WAcos; WPhi S1.aux_2_0 S1.aux_2_1]
+  map t_wrap (e_tensors S2.entry) = [WNone; WAcosClamp (ECst (-1)) (ECst 1); WPhi S2.aux_2_0 S2.aux_2_1]
+  /\ map t_wrap (e_tensors S1.entry) = [WNone; WAcosClamp (ECst (-1)) (ECst 1); WPhi S1.aux_2_0 S1.aux_2_1]
   /\ S1.term_1 = S2.term_1 /\ S1.term_2 = S2.term_2 /\ S1.aux_2_0 = S2.aux_2_0 /\ S1.aux_2_1 = S2.aux_2_1.
 Proof. exact sph_structure. Qed.
 
@@ -126,15 +128,43 @@ Theorem C07_sph_r_range_radius : forall venv penv fenv,
   defined venv penv fenv S1.term_0 /\ penv p_a <= eval venv penv fenv S1.term_0 <= penv p_b.
 Proof. exact sph_r_range_radius. Qed.
 
-(* full strength (refuted, F8): the same without the hypothesis on the square root *)
-Theorem C07_sph_theta_partial : forall venv penv fenv,
+Theorem C07_sph_denom_def :
+  e_defs S2.entry = [(v_denom, S2.def_0_arg, S2.def_0_lo)] /\ e_defs S1.entry = [(v_denom, S1.def_0_arg, S1.def_0_lo)]
+  /\ S2.def_0_lo = EPar p_tiny /\ S1.def_0_arg = S2.def_0_arg /\ S1.def_0_lo = S2.def_0_lo.
+Proof. exact denom_def. Qed.
+
+(* theta = acos(clamp(z, -1, 1)) is defined and in [0, pi] for EVERY draw a, b, c in [0,1) and
+   either sign (full strength: no hypothesis on a + b + c or on the size of z) *)
+Theorem C07_sph_theta : forall venv penv fenv,
   0 <= venv v_u0 < 1 -> 0 <= venv v_u1 < 1 -> 0 <= venv v_u2 < 1 ->
-  venv v_s0 = 0 \/ venv v_s0 = 1 -> 0 < venv v_u0 + venv v_u1 + venv v_u2 ->
-  sqrt (venv v_u2 / (venv v_u0 + venv v_u1 + venv v_u2)) + 1 / 1000000 <= 1 ->
+  venv v_s0 = 0 \/ venv v_s0 = 1 -> 0 < penv p_tiny ->
+  venv v_denom = Rmax (eval venv penv fenv S2.def_0_arg) (eval venv penv fenv S2.def_0_lo) ->
   defined venv penv fenv S2.term_1
-  /\ -1 <= eval venv penv fenv S2.term_1 <= 1
-  /\ 0 <= acos (eval venv penv fenv S2.term_1) <= PI.
-Proof. exact (fun venv penv fenv _ _ H2 Hs Hp Hl => sph_theta_partial venv penv fenv H2 Hs Hp Hl). Qed.
+  /\ -1 <= clamp (eval venv penv fenv S2.term_1) (-1) 1 <= 1
+  /\ 0 <= acos (clamp (eval venv penv fenv S2.term_1) (-1) 1) <= PI.
+Proof. exact (fun venv penv fenv _ _ H2 _ Ht Hd => sph_theta venv penv fenv H2 Ht Hd). Qed.
+
+(* the guard is the identity unless all three draws vanish, and in the generic case the clamp of
+   z is the identity too: theta = acos z *)
+Theorem C07_sph_denom_generic : forall venv penv fenv,
+  venv v_denom = Rmax (eval venv penv fenv S2.def_0_arg) (eval venv penv fenv S2.def_0_lo) ->
+  penv p_tiny <= venv v_u0 + venv v_u1 + venv v_u2 -> venv v_denom = venv v_u0 + venv v_u1 + venv v_u2.
+Proof. exact denom_generic. Qed.
+
+Theorem C07_sph_theta_unclamped : forall venv penv fenv,
+  0 <= venv v_u2 < 1 -> venv v_s0 = 0 \/ venv v_s0 = 1 -> 0 < penv p_tiny ->
+  venv v_denom = Rmax (eval venv penv fenv S2.def_0_arg) (eval venv penv fenv S2.def_0_lo) ->
+  sqrt (venv v_u2 / venv v_denom) + 1 / 1000000 <= 1 ->
+  clamp (eval venv penv fenv S2.term_1) (-1) 1 = eval venv penv fenv S2.term_1.
+Proof. exact sph_theta_unclamped. Qed.
+
+Theorem C07_sph_atan2_args : forall venv penv fenv,
+  0 <= venv v_u0 < 1 -> 0 <= venv v_u1 < 1 -> venv v_s0 = 0 \/ venv v_s0 = 1 -> 0 < penv p_tiny ->
+  venv v_denom = Rmax (eval venv penv fenv S2.def_0_arg) (eval venv penv fenv S2.def_0_lo) ->
+  venv v_s1 = 0 \/ venv v_s1 = 1 ->
+  defined venv penv fenv S2.aux_2_0 /\ defined venv penv fenv S2.aux_2_1
+  /\ eval venv penv fenv S2.aux_2_0 <> 0 /\ eval venv penv fenv S2.aux_2_1 <> 0.
+Proof. exact sph_atan2_args. Qed.
 
 Theorem C07_sph_phi_range : forall venv penv fenv (atan2 : R -> R -> R),
   (forall y x, - PI < atan2 y x <= PI) ->
